@@ -2,6 +2,7 @@ package rules
 
 import (
 	"fmt"
+	"go/types"
 	"strings"
 
 	"golang.org/x/tools/go/ssa"
@@ -529,6 +530,50 @@ func findReplySites(c *Ctx, a *udpAnchors) []replySites {
 	return out
 }
 
+// openEnded: v is an allocation, or x[lo:] / x[lo:len(x)] / x[lo:cap(x)] of an open-ended value: its end is the end of the
+// underlying buffer.
+func openEnded(c *Ctx, v ssa.Value, d int) (bool, string) {
+	if d > 6 {
+		return false, "slicing too deep to follow"
+	}
+	for _, o := range c.P.Origins(v, deepF) {
+		switch x := o.(type) {
+		case *ssa.Slice:
+			if x.High != nil {
+				isEnd := false
+				// make([]T, N) with constant N is lowered to (new [N]T)[:N]
+				if al, ok := x.X.(*ssa.Alloc); ok {
+					if pt, ok := al.Type().Underlying().(*types.Pointer); ok {
+						if at, ok := pt.Elem().Underlying().(*types.Array); ok {
+							if k, ok := eng.ConstInt(x.High); ok && k == at.Len() {
+								isEnd = true
+							}
+						}
+					}
+				}
+				if call, ok := x.High.(*ssa.Call); ok {
+					if bi, ok := call.Call.Value.(*ssa.Builtin); ok && (bi.Name() == "len" || bi.Name() == "cap") {
+						isEnd = c.P.Resolve(call.Call.Args[0]) == c.P.Resolve(x.X)
+					}
+				}
+				if !isEnd {
+					return false, "upper bound at " + c.P.IPos(x)
+				}
+			}
+			if _, isArr := x.X.(*ssa.Alloc); isArr {
+				continue // new [N]T sliced whole: constant-size make
+			}
+			if ok, why := openEnded(c, x.X, d+1); !ok {
+				return false, why
+			}
+		case *ssa.MakeSlice, *ssa.Alloc:
+		default:
+			return false, "not a slice of a locally allocated buffer: " + valStr(c.P, o)
+		}
+	}
+	return true, ""
+}
+
 // rootParam: v derives only from parameters of the reply-loop root function.
 func rootParam(c *Ctx, v ssa.Value, rf *ssa.Function, typ string) bool {
 	g, _ := c.P.AllFrom(v, deepF, func(x ssa.Value) bool {
@@ -561,6 +606,13 @@ func ruleReplyAddr(c *Ctx, a *udpAnchors) {
 				}
 			}
 			c.CheckAt("REPLYADDR", key+":encoded-address-written-into-packet", parse, copied, "the encoded sender address is not what is copied into the packet header")
+		}
+		// intact or not at all: a reply that does not fit must fail to pack (and be dropped), never be relayed cut short. The
+		// read buffer therefore reaches the very end of the packet buffer that Pack encrypts in: a read that fills it leaves no
+		// room for the tag, so Pack fails. A read buffer that stops short of the end lets the kernel truncate silently.
+		for _, rd := range rs.reads {
+			ok, why := openEnded(c, eng.Arg(&rd.Call, 0), 0)
+			c.CheckAt("REPLYADDR", key+":read-buffer-reaches-the-end-of-the-packet-buffer", rd, ok, "the buffer replies are read into is cut short of the end of the packet buffer ("+why+"): an oversize reply is truncated by the kernel to a size that still packs, and the client receives a modified payload")
 		}
 		if len(rs.writes) == 0 {
 			c.CheckAt("REPLYADDR", key+":reply-sent-to-client", rs.reads[0], false, "the reply path never writes to the client connection")
